@@ -416,6 +416,38 @@ pub fn run(ctx: &mut Ctx) {
         }
         eval_array(ctx, &vec![true; 30000], 0, "oversized_arrays");
     }
+    // well-formed renderings with surplus or missing pixels; dimensions that agree with a symbol's modulo 256
+    for (i, r) in CAT.iter().enumerate() {
+        if !ctx.mine(i) {
+            continue;
+        }
+        let pl = Placement::for_row(r);
+        let img = render(r, &pl.fill(&ctx.rng.bytes(r.total())));
+        for extra in [1usize, 2, r.cols / 2, r.cols - 1, r.cols, r.cols + 1] {
+            let mut a = img.clone();
+            a.extend((0..extra).map(|k| k % 2 == 0));
+            eval_array(ctx, &a, r.cols, "valid_rendering_with_surplus_pixels");
+        }
+        for cut in [1usize, 2, r.cols - 1, r.cols, r.cols + 1] {
+            let mut a = img.clone();
+            a.truncate(img.len() - cut);
+            eval_array(ctx, &a, r.cols, "valid_rendering_truncated");
+        }
+        for (dw, dh) in [(256usize, 0usize), (0, 256), (256, 256), (512, 0), (65536, 0)] {
+            let (w, h) = (r.cols + dw, r.rows + dh);
+            if w * h > 3_000_000 {
+                continue;
+            }
+            let mut a = vec![false; w * h];
+            for y in 0..r.rows {
+                for x in 0..r.cols {
+                    a[y * w + x] = img[y * r.cols + x];
+                }
+            }
+            eval_array(ctx, &a, w, "dimensions_congruent_mod_256");
+            eval_array(ctx, &vec![true; w * h], w, "dimensions_congruent_mod_256");
+        }
+    }
     // off-by-one neighbours of all 48 dimensions
     for (i, r) in CAT.iter().enumerate() {
         if !ctx.mine(i) {
